@@ -1,3 +1,285 @@
 """Narrow structural predicates over *minimal* (shrunk) failure cases, named by
 known_findings.json.  A predicate looks only at the minimal case: leaf kind,
 constraint shape, value class, codec, failure kind."""
+
+from .terms import (Leaf, Seq, Cho, Of, Ref, Tag, M, Grp, Rng, MIN, MAX, KNOWN_MULT, STRING_KINDS,
+                    all_members, resolve, subterms)
+from .casefmt import leaf_components
+from .tagging import outer_tags
+
+
+def _live(f):
+    return f.get('_term'), f.get('_value'), f.get('_env') or {}
+
+
+def _leafpairs(f):
+    t, v, env = _live(f)
+    if t is None:
+        return []
+    return list(leaf_components(t, v, env))
+
+
+def _strip(t, env):
+    """Strip tags and references."""
+    return resolve(t, env)
+
+
+def _single_leaf(f):
+    """(leaf, value) when the minimal case is one leaf (possibly tagged / referenced /
+    the only present component of a one-member wrapper), else (None, None)."""
+    pairs = _leafpairs(f)
+    if len(pairs) == 1:
+        return pairs[0]
+    return None, None
+
+
+def _all_terms(f):
+    t, v, env = _live(f)
+    if t is None:
+        return []
+    out = []
+    seen = set()
+
+    def walk(x):
+        for s in subterms(x):
+            out.append(s)
+            if isinstance(s, Ref) and s.name not in seen and s.name in env:
+                seen.add(s.name)
+                walk(env[s.name])
+    walk(t)
+    return out
+
+
+def _bits_garbage(v):
+    if not (isinstance(v, tuple) and len(v) == 2 and isinstance(v[0], (bytes, bytearray)) and isinstance(v[1], int)):
+        return False
+    data, n = v
+    if 8 * len(data) <= n:
+        return False
+    full, rest = divmod(n, 8)
+    if rest and data[full] & (0xff >> rest):
+        return True
+    return any(data[full + (1 if rest else 0):])
+
+
+def _len_outside_root(size, n):
+    lo = size.lo() or 0
+    hi = size.hi()
+    return n < lo or (hi is not None and n > hi)
+
+
+# ---- C01 / shared ---------------------------------------------------------------------
+
+def per_size_extension_not_implemented(f):
+    """PER/UPER: BIT STRING or known-multiplier string with an extensible SIZE and a
+    value outside the root -> NotImplementedError."""
+    if f.get('codec') not in ('per', 'uper') or 'NotImplementedError' not in (f.get('detail') or ''):
+        return False
+    for l, v in _leafpairs(f):
+        if l.size is not None and l.size.ext and (l.kind == 'BITSTRING' or l.kind in KNOWN_MULT):
+            n = v[1] if l.kind == 'BITSTRING' else len(v)
+            if _len_outside_root(l.size, n):
+                return True
+    return False
+
+
+def per_string_extensible_size_broken(f):
+    """PER/UPER: known-multiplier string whose SIZE is extensible with a finite upper
+    bound: fixed-size roots lose/pad characters, values outside the root raise
+    'Odd-length string' / run out of data."""
+    if f.get('codec') not in ('per', 'uper'):
+        return False
+    for l, v in _leafpairs(f):
+        if l.kind in KNOWN_MULT and l.size is not None and l.size.ext and l.size.hi() is not None:
+            if l.size.lo() == l.size.hi() or _len_outside_root(l.size, len(v)):
+                return True
+    return False
+
+
+def per_extensible_constraint_with_min_or_max(f):
+    """PER/UPER: an extensible constraint whose root has a MIN or MAX bound raises
+    TypeError (None compared with int) on encode."""
+    if f.get('codec') not in ('per', 'uper') or 'TypeError' not in (f.get('detail') or ''):
+        return False
+    for l, v in _leafpairs(f):
+        if l.rng is not None and l.rng.ext and (l.rng.lb == MIN or l.rng.ub == MAX):
+            return True
+        if l.size is not None and l.size.ext and l.size.ub == MAX:
+            return True
+    return False
+
+
+def bit_string_value_with_bits_beyond_count(f):
+    """A BIT STRING value (bytes, n) whose bytes have non-zero bits after the first n
+    bits: the encoders use the surplus bits."""
+    if f.get('kind') not in ('roundtrip-mismatch', 'reencode-mismatch', 'decode-raised', 'model-mismatch'):
+        return False
+    for l, v in _leafpairs(f):
+        if l.kind == 'BITSTRING' and _bits_garbage(v):
+            return True
+    return False
+
+
+def per_bmp_string_permitted_alphabet(f):
+    if f.get('codec') not in ('per', 'uper'):
+        return False
+    for l, v in _leafpairs(f):
+        if l.kind == 'BMPString' and l.alpha is not None and len(v) > 0:
+            return True
+    return False
+
+
+def per_single_character_alphabet(f):
+    """PER/UPER: FROM with exactly one character (zero bits per character) decodes to ''."""
+    if f.get('codec') not in ('per', 'uper') or f.get('kind') != 'roundtrip-mismatch':
+        return False
+    for l, v in _leafpairs(f):
+        if l.kind in KNOWN_MULT and l.alpha is not None and len(l.alpha) == 1 and len(v) > 0:
+            return True
+    return False
+
+
+def oer_choice_alternative_without_own_tag(f):
+    """OER: a CHOICE alternative that is itself an untagged CHOICE, or a DATE /
+    TIME-OF-DAY / DATE-TIME, has no tag in the OER compiler -> TypeError len(None)."""
+    if f.get('codec') != 'oer' or f.get('kind') != 'encode-raised' or 'has no len' not in (f.get('detail') or ''):
+        return False
+    t, v, env = _live(f)
+    for s in _all_terms(f):
+        if isinstance(s, Cho):
+            for m in all_members(s):
+                x = m.t
+                while isinstance(x, Ref):
+                    x = env[x.name]
+                if isinstance(x, Cho) or (isinstance(x, Leaf) and x.kind in ('DATE', 'TIME-OF-DAY', 'DATE-TIME')):
+                    return True
+    return False
+
+
+_ZERO_WIDTH = ('NULL',)
+
+
+def _zero_width_per(t, env):
+    t = resolve(t, env)
+    if isinstance(t, Leaf):
+        if t.kind == 'NULL':
+            return True
+        if t.kind == 'INTEGER' and t.rng is not None and not t.rng.ext and t.rng.lb == t.rng.ub:
+            return True
+        if t.kind == 'ENUMERATED' and len(t.enum) == 1 and t.enum_adds is None:
+            return True
+        if t.kind in ('BITSTRING', 'OCTETSTRING') or t.kind in KNOWN_MULT:
+            return t.size is not None and not t.size.ext and t.size.lb == 0 and t.size.ub == 0
+    return False
+
+
+def per_addition_group_with_only_zero_width_members(f):
+    """PER/UPER: an extension addition group whose present members all encode to zero
+    bits is treated as absent and its members are lost."""
+    if f.get('codec') not in ('per', 'uper') or f.get('kind') != 'roundtrip-mismatch':
+        return False
+    t, v, env = _live(f)
+    t = resolve(t, env) if t is not None else None
+    if not isinstance(t, Seq) or not isinstance(v, dict):
+        return False
+    for a in t.adds:
+        if isinstance(a, Grp):
+            present = [m for m in a.members if m.name in v]
+            if present and all(_zero_width_per(m.t, env) for m in present) \
+                    and all(m.name in v or m.q != 'M' for m in a.members):
+                return True
+    return False
+
+
+def ber_absent_optional_shadows_addition_with_same_tag(f):
+    """BER/DER: SEQUENCE with an absent OPTIONAL/DEFAULT root member whose tag equals
+    the tag of a present extension addition: the lenient member matching gives the
+    addition's value to the root member."""
+    if f.get('codec') not in ('ber', 'der') or f.get('kind') not in ('roundtrip-mismatch', 'decode-raised'):
+        return False
+    t, v, env = _live(f)
+    t = resolve(t, env) if t is not None else None
+    if not isinstance(t, Seq) or not t.adds or not isinstance(v, dict):
+        return False
+    add_tags = set()
+    for a in t.adds:
+        for m in (a.members if isinstance(a, Grp) else (a,)):
+            if m.name in v:
+                add_tags |= outer_tags(m.t, env)
+    for m in t.root + t.root2:
+        if m.q != 'M' and outer_tags(m.t, env) & add_tags:
+            return True
+    return False
+
+
+def _default_members(f):
+    t, v, env = _live(f)
+    out = []
+    for s in _all_terms(f):
+        if isinstance(s, Seq):
+            for m in all_members(s):
+                if m.q == 'D':
+                    out.append((m, resolve(m.t, env)))
+    return out
+
+
+def default_string_that_looks_like_a_number(f):
+    """DEFAULT "<digits>" on a character string member is converted to an int by the parser."""
+    for m, rt in _default_members(f):
+        if isinstance(rt, Leaf) and rt.kind in STRING_KINDS and isinstance(m.default, str):
+            try:
+                float(m.default)
+                return True
+            except ValueError:
+                pass
+    return False
+
+
+def default_of_object_identifier(f):
+    for m, rt in _default_members(f):
+        if isinstance(rt, Leaf) and rt.kind == 'OID':
+            return True
+    return False
+
+
+def default_of_real(f):
+    for m, rt in _default_members(f):
+        if isinstance(rt, Leaf) and rt.kind == 'REAL':
+            return True
+    return False
+
+
+def oer_utf8string_fixed_size_non_ascii(f):
+    """OER: UTF8String with a fixed SIZE is written without a length although SIZE counts
+    characters, so multi-byte characters are cut."""
+    if f.get('codec') != 'oer':
+        return False
+    for l, v in _leafpairs(f):
+        if l.kind == 'UTF8String' and l.size is not None and not l.size.ext and l.size.lb == l.size.ub \
+                and isinstance(v, str) and any(ord(c) > 127 for c in v):
+            return True
+    return False
+
+
+def oer_choice_alternative_is_recursive_reference(f):
+    """OER: a CHOICE alternative that is a reference back into a type being defined
+    (compiled as a Recursive placeholder without a tag) -> TypeError len(None)."""
+    if f.get('codec') != 'oer' or f.get('kind') != 'encode-raised' or 'has no len' not in (f.get('detail') or ''):
+        return False
+    t, v, env = _live(f)
+
+    def reaches(name, target, seen):
+        if name in seen or name not in env:
+            return False
+        seen.add(name)
+        for s in subterms(env[name]):
+            if isinstance(s, Ref) and (s.name == target or reaches(s.name, target, seen)):
+                return True
+        return False
+
+    for s in _all_terms(f):
+        if isinstance(s, Cho):
+            for m in all_members(s):
+                if isinstance(m.t, Ref) and reaches(m.t.name, m.t.name, set()):
+                    return True
+    return False
